@@ -148,7 +148,7 @@ def _wrap_trainer(base):
 
 
 for _cd in list(REGISTRY.get("C09", [])):
-    if _cd.name.endswith(".forward") and ("C09", _cd.name) not in _seen:
+    if ".forward" in _cd.name and ("C09", _cd.name) not in _seen:
         _seen.add(("C09", _cd.name))
         contract(P, f"{_cd.name}[per-sample terms]", list(_cd.targets), min_obligations=1)(_wrap_trainer(_cd))
 
